@@ -4,6 +4,7 @@
 package simhttp
 
 import (
+	"github.com/go-openapi/runtime"
 	"context"
 	"fmt"
 	"io"
@@ -287,3 +288,18 @@ type UploadFileCT struct {
 func (u *UploadFileCT) ContentType() string { return u.CT }
 
 var _ context.Context = context.Background()
+
+// Inspect does what a signing credential writer does before it writes anything: it looks at everything the request
+// offers.  Looking must not change what is sent; the copies that getters hand out are scribbled on to show it.
+func Inspect(req runtime.ClientRequest) {
+	_ = req.GetMethod()
+	_ = req.GetPath()
+	_ = req.GetHeaderParams() // the live header map by design: left alone
+	_ = req.GetBodyParam()
+	_ = req.GetFileParam()
+	for _, vs := range req.GetQueryParams() {
+		for i := range vs {
+			vs[i] = "scribbled-by-the-auth-writer"
+		}
+	}
+}
